@@ -99,12 +99,21 @@ def run(ctx):
     r = ctx.rule("R2", "both success handlers reset delay and attempt count on every path", 4, "A")
     for h in (hor, hfr):
         ch = ctx.cfg(h)
+        # the next request of a success path: every path that schedules/sends it has restored the counters before
+        nexts = [n for n in ch.nodes if any(call_name(c) in ("_retry_fetch", "_do_fetch") and call_recv(c) == "self" for c in n.calls())]
+        # lazily decoded content (the reply's messages are decoded while they are iterated): a reset that happens before
+        # that iteration would also "succeed" a reply that then fails to decode
+        lazy = [n for n in ch.nodes if n.kind == "for" and isinstance(n.stmt.iter, ast.Attribute) and n.stmt.iter.attr == "messages"]
         for attr, want in (("retry_delay", "self.retry_init_delay"), ("_fetch_attempt_count", "1")):
-            ns = [n for n in ch.nodes if node_assign_value(n, attr) is not None and norm(node_assign_value(n, attr)) == want]
-            ok = bool(ns) and all(ch.dominates([n.id for n in ns], x.id) for x in ch.nodes if x.kind == "stmt" and isinstance(
-                x.stmt, ast.Return)) and ch.dominates([n.id for n in ns], ch.exit.id)
-            r.check(ok, "%s#reset(%s)" % (h.qname, attr), "success does not restore %s = %s on every path" % (attr, want),
+            ns = [n for n in ch.nodes if node_assign_value(n, attr) is not None and norm(at(ctx, h, n.id, node_assign_value(n, attr))) == want]
+            ok = bool(ns) and bool(nexts) and all(ch.dominates([n.id for n in ns], x.id) for x in nexts)
+            r.check(ok, "%s#reset(%s)" % (h.qname, attr), "success does not restore %s = %s before the next request is issued" % (attr, want),
                     where(h, h.node), "delays keep growing across successes / attempt limit reached by non-consecutive failures")
+            early = [n for n in ns if any(n.id != l.id and l.id in ch.reach([n.id]) and not ch.dominates([l.id], n.id) for l in lazy)]
+            r.check(not early, "%s#reset-after-decode(%s)" % (h.qname, attr),
+                    "%s is restored before the reply's messages have been decoded (they are decoded lazily, inside the loop)" % attr,
+                    where(h, early[0].stmt if early else h.node), "a reply whose message set fails to decode (bad checksum) reaches the error "
+                    "handler with the counters freshly reset: the attempt limit is never reached and the delay never grows")
 
     # ---- R3 attempt limit
     r = ctx.rule("R3", "limit test dominates every retry; limit arm fails the start Deferred and returns; count "
@@ -232,6 +241,10 @@ def buffer_kernel(ctx, r):
 
 
 MUTANTS = [
+    {"id": "reset-before-decode", "file": "consumer.py",
+     "edits": [("consumer.py", "        # Check to see if we are still processing the last block we fetched...\n        if self._msg_block_d:",
+                "        self.retry_delay = self.retry_init_delay\n        self._fetch_attempt_count = 1\n        # Check to see if we are still processing the last block we fetched...\n        if self._msg_block_d:")],
+     "expect": "C14.R2", "note": "finding F23"},
     {"id": "backoff-factor-inverse", "file": "consumer.py", "old": "REQUEST_RETRY_FACTOR = 1.20205", "new": "REQUEST_RETRY_FACTOR = 0.9",
      "expect": "C14.R1"},
     {"id": "backoff-no-cap", "file": "consumer.py",
